@@ -369,10 +369,83 @@ pub fn run(ctx: &Ctx) -> Report {
         st = st.merge(st5);
     }
 
+    // (6) the client's reading of the request differs from the server's: the server runs with each of the four option
+    //     sets, the request (a form POST whose path has an empty and a dot segment) is signed correctly under each of
+    //     the four readings — folded or not, S3 path or normalised — over each subset of its headers. Whatever reading
+    //     a signature is good for, an unsigned mandatory header refuses the request.
+    {
+        const H6: [&str; 5] = ["content-type", "x-req-a", "x-opt-c", "x-p-1", "x-amz-target"];
+        let n6 = 4 * 4 * 64 * 64 * 2;
+        let base6 = base2 + n_seq + 30_000_000;
+        let st6 = par_sweep(n6, |i, st| {
+            let mut x = i;
+            let carrier = if x % 2 == 0 { Carrier::Header } else { Carrier::Query };
+            x /= 2;
+            let signed_mask = x % 64; // bits 0..4: H6, bit 5: x-amz-date
+            x /= 64;
+            let rs = x % 64;
+            x /= 64;
+            let (sign_s3, sign_fold) = (x % 2 == 1, (x / 2) % 2 == 1);
+            x /= 4;
+            let (srv_s3, srv_fold) = (x % 2 == 1, (x / 2) % 2 == 1);
+            if carrier == Carrier::Query && signed_mask & 32 != 0 {
+                return;
+            }
+            let reqs = ReqSpec {
+                always: (0..2).filter(|b| rs & (1 << b) != 0).map(|b| ALWAYS[b].to_string()).collect(),
+                if_in_request: (0..2).filter(|b| rs & (4 << b) != 0).map(|b| IFIN[b].to_string()).collect(),
+                prefixes: (0..2).filter(|b| rs & (16 << b) != 0).map(|b| PREFIXES[b].to_string()).collect(),
+                how: Some(if i % 3 == 0 { ReqBuild::Slice } else { ReqBuild::VecNew }),
+            };
+            let mut plan = e2e::base_plan(carrier);
+            plan.method = "POST".into();
+            plan.segs = vec![b"a".to_vec(), b"b".to_vec(), b"c".to_vec()];
+            plan.wire_path = Some("/a//b/./c".into());
+            if sign_s3 {
+                plan.canonical_path = Some("/a//b/./c".into());
+            }
+            plan.body = b"Action=Do&Version=1".to_vec();
+            if sign_fold {
+                plan.body_params = Some(vec![(b"Action".to_vec(), b"Do".to_vec()), (b"Version".to_vec(), b"1".to_vec())]);
+            }
+            plan.headers.clear();
+            plan.headers.push(("Host".into(), b"example.amazonaws.com".to_vec()));
+            plan.headers.push(("Content-Type".into(), b"application/x-www-form-urlencoded".to_vec()));
+            for (b, h) in H6.iter().enumerate().skip(1) {
+                plan.headers.push((h.to_string(), format!("v{}", b).into_bytes()));
+            }
+            plan.signed = vec!["host".into()];
+            for (b, h) in H6.iter().enumerate() {
+                if signed_mask & (1 << b) != 0 {
+                    plan.signed.push(h.to_string());
+                }
+            }
+            if signed_mask & 32 != 0 {
+                plan.signed.push("x-amz-date".into());
+            }
+            let built = build(&plan);
+            let mut cfg = Cfg::basic(e2e::base_instant());
+            cfg.reqs = reqs;
+            cfg.s3 = srv_s3;
+            cfg.fold = srv_fold;
+            let case = Case { wire: WireReq::from_wire(&built.wire), cfg, prov: ProvSpec::standard() };
+            let before = st.violations.len();
+            let j = e2e::judge_into(base6 + i, &case, st);
+            if st.violations.len() > before {
+                if let Some(v) = st.violations.last_mut() {
+                    v.what = format!("signed-under-another-reading(server s3={} fold={}, signed as s3={} folded={}):{}", srv_s3, srv_fold, sign_s3, sign_fold, v.what);
+                }
+            }
+            st.state(&(rs, j.reference.accepted(), srv_s3, srv_fold, sign_s3, sign_fold, "readings"));
+            st.nontrivial(&(rs, signed_mask, carrier, srv_s3, srv_fold, sign_s3, sign_fold, "readings"));
+        });
+        st = st.merge(st6);
+    }
+
     Report {
         stats: st,
         rule: format!(
-            "64 requirement sets (always ⊆ {{x-req-a, Content-Type}}, if-in-request ⊆ {{x-opt-c, ETag}}, prefixes ⊆ {{x-p-, X-Amz}}) x {} letter-case styles x {} ways of building the requirements (slice, VecSignedHeaderRequirements::new, add_*, add_* then remove_* of decoys) x every subset of 7 optional request headers (one of them named exactly like the declared prefix x-p-; values rotate through empty, blank and non-empty) x every signed subset of the present headers and x-amz-date x {{host, :authority, neither}}; every request is correctly signed over exactly the list it declares, so only the requirement rules can refuse it. Oracle: reference verifier (Ok iff host/:authority signed, every always-header signed, every present conditional header signed, every present header matching a prefix — including x-amz-date and authorization-related ones — signed; otherwise SignatureDoesNotMatch/403 and an empty provider log). plus every sequence of up to {} add_*/remove_* operations over three names (two of them case variants of each other) on VecSignedHeaderRequirements, compared with a set model of what was declared; plus signed-header lists as multisets (a name repeated once / twice, every entry doubled, a name of a header not sent, as many repeats as there are unsigned sent headers) x 64 requirement sets x 15 header presence sets x every signed subset; plus 256 requirement sets whose declarations overlap (names declared always / conditionally required that also fall under a declared prefix, x-amz-date declared conditional, one name in two categories) x every presence subset of 5 headers x every signed subset x x-amz-date signed or not. states = (requirement set, accepted)",
+            "64 requirement sets (always ⊆ {{x-req-a, Content-Type}}, if-in-request ⊆ {{x-opt-c, ETag}}, prefixes ⊆ {{x-p-, X-Amz}}) x {} letter-case styles x {} ways of building the requirements (slice, VecSignedHeaderRequirements::new, add_*, add_* then remove_* of decoys) x every subset of 7 optional request headers (one of them named exactly like the declared prefix x-p-; values rotate through empty, blank and non-empty) x every signed subset of the present headers and x-amz-date x {{host, :authority, neither}}; every request is correctly signed over exactly the list it declares, so only the requirement rules can refuse it. Oracle: reference verifier (Ok iff host/:authority signed, every always-header signed, every present conditional header signed, every present header matching a prefix — including x-amz-date and authorization-related ones — signed; otherwise SignatureDoesNotMatch/403 and an empty provider log). plus every sequence of up to {} add_*/remove_* operations over three names (two of them case variants of each other) on VecSignedHeaderRequirements, compared with a set model of what was declared; plus signed-header lists as multisets (a name repeated once / twice, every entry doubled, a name of a header not sent, as many repeats as there are unsigned sent headers) x 64 requirement sets x 15 header presence sets x every signed subset; plus 256 requirement sets whose declarations overlap (names declared always / conditionally required that also fall under a declared prefix, x-amz-date declared conditional, one name in two categories) x every presence subset of 5 headers x every signed subset x x-amz-date signed or not; plus a form POST with an empty and a dot path segment signed correctly under each of the 4 readings (folded or not, S3 path or normalised) x the server running each of the 4 option sets x 64 requirement sets x every signed subset of its 5 headers and x-amz-date x carrier (a signature good for another reading of the request never excuses an unsigned mandatory header). states = (requirement set, accepted)",
             if thorough { 3 } else { 3 }, n_build, depth
         ),
         bounds: json!({"requirement_sets": 64, "shapes": n_shapes, "cases": total}),
